@@ -393,7 +393,7 @@ func (ss *SpecSet) loadFile(path, pkgPath string) error {
 				}
 				// callee key may contain spaces only inside parens: take up to " assert "/" ghost "/" unreachable"
 				idx, kind := -1, ""
-				for _, k := range []string{" assert ", " ghost ", " assume "} {
+				for _, k := range []string{" assert ", " ghost ", " assume ", " interference "} {
 					if j := strings.Index(r4, k); j >= 0 && (idx < 0 || j < idx) {
 						idx, kind = j, strings.TrimSpace(k)
 					}
@@ -410,6 +410,15 @@ func (ss *SpecSet) loadFile(path, pkgPath string) error {
 					}
 					st.Ghost = strings.TrimSpace(body[:j])
 					body = strings.TrimSpace(body[j+1:])
+				}
+				if kind == "interference" {
+					// at call N of KEY interference T.f[, T.g]: other goroutines may
+					// act on these fields while the call runs (the most general
+					// rely): the named heaps are arbitrary after the call
+					st.Ghost = body
+					st.C = &Clause{Text: body, Line: ln, File: path}
+					cur.Sites = append(cur.Sites, st)
+					continue
 				}
 				c, err := mkClause(body, ln)
 				if err != nil {
